@@ -75,6 +75,16 @@ def Proto.ifaceSend (s : Proto) (p : Packet) : Proto × Except PErr Unit :=
   | none :: q => ({ s with txQueue := q, log := s.log ++ [LogEntry.tx p true] }, .ok ())
   | some t :: q => ({ s with txQueue := q, log := s.log ++ [LogEntry.tx p false] }, .error (.interface t))
 
+/-- `interface.try_get_packet` on the scripted interface (an exhausted script answers `NoPacketReceived`) -/
+def Proto.ifaceGet (s : Proto) : Proto × Except IfErr Packet :=
+  match s.rxQueue with
+  | [] => (s, .error .noPacket)
+  | r :: q => ({ s with rxQueue := q }, r)
+
+/-- `self.handlers.remove(&id)`: the table without that key, and whether the key was there -/
+def Proto.removeKey (s : Proto) (id : Nat) : Proto × Bool :=
+  ({ s with handlers := s.handlers.filter (·.1 != id) }, s.handlers.any (·.1 == id))
+
 /-- `handle_packet(q, true)` entered from inside a callback: every handler, in id order, is invoked
 re-entrantly (and, invoked that way, only records the packet) -/
 def Proto.nestedDispatch (s : Proto) (q : Packet) : Proto :=
